@@ -780,3 +780,29 @@ func dominatedByCallUp(p *Prog, instr ssa.Instruction, pred func(*ssa.CallCommon
 	}
 	return true
 }
+
+// spilledResult looks through the result cell of a function with a defer: `return x, err` becomes stores to the result
+// cells, rundefers, loads; the value the return statement stored (in the return's own block) is what was returned.
+func spilledResult(r *ssa.Return, v ssa.Value) ssa.Value {
+	u, ok := v.(*ssa.UnOp)
+	if !ok || u.Op != token.MUL {
+		return v
+	}
+	al, ok := u.X.(*ssa.Alloc)
+	if !ok {
+		return v
+	}
+	var last ssa.Value
+	for _, ins := range r.Block().Instrs {
+		if ins == ssa.Instruction(u) {
+			break
+		}
+		if st, ok := ins.(*ssa.Store); ok && st.Addr == ssa.Value(al) {
+			last = st.Val
+		}
+	}
+	if last != nil {
+		return last
+	}
+	return v
+}
